@@ -85,8 +85,74 @@ def sig_extra(sig, sid, devs):
     return s
 
 
+def first_datagram_case(args):
+    """'From the first datagram ... the connection always names a finite next timer deadline': any
+    first datagram handed to a fresh server connection - also one that is dropped - must leave a
+    finite timer, and firing it must lead to exactly one termination event."""
+    lo, hi = args
+    from checks import c05
+
+    items = c05.raw_menu(c05.make_bot("server_fresh"), "quick")[lo:hi]
+    out = {"n": 0, "viol": [], "outcomes": set()}
+    for label, data in items:
+        bot = c05.make_bot("server_fresh")
+        E = bot.E
+        out["n"] += 1
+        try:
+            bot.feed(data)
+            t = E.conn.get_timer()
+            if t is None and E.terminated is None:
+                out["viol"].append(({"monitor": "timer.none_after_first_datagram"},
+                                    "fresh server: get_timer() is None after first datagram %s (%d bytes)"
+                                    % (label, len(data)), label, data.hex()[:200]))
+                continue
+            n = 0
+            while E.terminated is None and n < 10:
+                t = E.conn.get_timer()
+                if t is None:
+                    out["viol"].append(({"monitor": "timer.none_while_alive", "state": E.conn._state.name},
+                                        "fresh server lost its timer after %d firings following %s" % (n, label),
+                                        label, data.hex()[:200]))
+                    break
+                bot.timer()
+                n += 1
+            terms = [e for e in E.events if type(e).__name__ == "ConnectionTerminated"]
+            if len(terms) > 1:
+                out["viol"].append(({"monitor": "close.terminated_twice"}, "two termination events after %s" % label,
+                                    label, data.hex()[:200]))
+            out["outcomes"].add((E.conn._state.name, n))
+        except core.HarnessError:
+            raise
+        except Exception as e:  # noqa  (C05's business; keep C09 going)
+            out["outcomes"].add(("exception", type(e).__name__))
+    return out
+
+
+def run_first_datagram(ctx):
+    from checks import c05
+
+    n = len(c05.raw_menu(c05.make_bot("server_fresh"), "quick"))
+    tasks = [(lo, min(n, lo + 80)) for lo in range(0, n, 80)]
+    res = core.pmap(first_datagram_case, tasks)
+    outcomes = set()
+    seen = set()
+    total = 0
+    for r in res:
+        total += r["n"]
+        outcomes |= r["outcomes"]
+        for sig, what, label, hx in r["viol"]:
+            k = core.stable_hash(sig)
+            if k in seen:
+                continue
+            seen.add(k)
+            ctx.violation(sig, what, {"part": "first_datagram", "label": label, "data_hex": hx})
+    ctx.part("fresh_server_first_datagram", evaluations=total, states=total, transitions=total * 2,
+             distinct_nontrivial=len(outcomes))
+
+
 def run(ctx):
     quick = ctx.tier == "quick"
+    run_first_datagram(ctx)
     sc = {}
     for name in SCRIPTS:
         sc[name + "|v1"] = {"script": name, "cfg": {}}
@@ -123,6 +189,17 @@ def run(ctx):
 
 
 def replay(ctx, obj):
+    if obj["replay"].get("part") == "first_datagram":
+        from checks import c05
+
+        bot = c05.make_bot("server_fresh")
+        bot.feed(bytes.fromhex(obj["replay"]["data_hex"]))
+        t = bot.E.conn.get_timer()
+        print("get_timer() after first datagram:", t)
+        if t is None and bot.E.terminated is None:
+            print("VIOLATION property=C09 replay=(replayed): timer is None")
+            return 1
+        return 0
     v = netcheck.replay("c09", obj)
     if v:
         print("VIOLATION property=C09 replay=(replayed): %s" % v[1])
